@@ -591,7 +591,8 @@ def rec_world_files(c, wdir):
     rels = node_paths(c)
     for k in range(W["n"]):
         kind, rel = W["kind"][k], f"{wdir}/{rels[k]}"
-        pkgname = "p" + LAB[k]
+        # every other world gives ALL its packages the same package name (directory names and import paths still differ)
+        pkgname = "samename" if wdir[-1] in "02468" else "p" + LAB[k]
         src = f"package {pkgname}\n\ntype I{LAB[k]} interface{{ M{LAB[k]}(x int) error }}\n\ntype S{LAB[k]} struct{{}}\n"
         if kind == "go":
             files[f"{rel}/x.go"] = src
@@ -772,6 +773,7 @@ REC_GUARDS = {
     "a sub-package with Go files is excluded": lambda c: any(
         e["allowed"] == [0] and c["W"]["kind"][k] == "go" and e["strict"] and (c["W"]["root"]["excl"] or any(c["W"]["excl"]))
         and ("T" in c["W"]["rec"] or c["W"]["root"]["rec"] == "T") for k, e in enumerate(c["expect"])),
+    "a recursive package whose own directory has no Go files": lambda c: rootless(c),
     "a test-only directory below a recursive package": lambda c: "test" in c["W"]["kind"],
     "a directory go list hides (testdata, _x, .x, vendor, nested module)": lambda c: any(k_ in c["W"]["kind"] for k_ in ("testdata", "under", "dot", "vendor", "submod")),
     "nested recursive packages": lambda c: sum(1 for k in range(c["W"]["n"]) if c["W"]["on"][k] and c["W"]["rec"][k] == "T") >= 2,
@@ -849,10 +851,15 @@ def rec_choose(ctx, cases, cap):
     return sorted(chosen)
 
 
+def rootless(c):
+    """a configured (recursive) package whose own directory has no Go files"""
+    return any(c["W"]["on"][k] and c["W"]["kind"][k] != "go" for k in range(c["W"]["n"]))
+
+
 def rec_batches(cases, chosen, cap=60):
     groups = defaultdict(list)
     for ci in chosen:
-        groups[json.dumps(cases[ci]["W"]["root"], sort_keys=True)].append((ci, cases[ci]))
+        groups[(json.dumps(cases[ci]["W"]["root"], sort_keys=True), rootless(cases[ci]))].append((ci, cases[ci]))
     batches = []
     for key in sorted(groups):
         g = groups[key]
@@ -921,8 +928,10 @@ def rec_judge(ctx, cases, results):
             if rr.panicked:
                 ctx.violation({"kind": "recursive-panic", "cmd": what}, {"batch": bi, "run": rr.brief()})
         if sc.code != 0 or res.code != 0:
-            ctx.violation({"kind": "recursive-exit", "cmd": "showconfig" if sc.code != 0 else "run"},
+            ctx.violation({"kind": "recursive-exit", "cmd": "showconfig" if sc.code != 0 else "run",
+                           "recursive_package_without_go_files": rootless(batch[0][1])},
                           {"batch": bi, "showconfig": sc.brief(), "run": res.brief(), "root": batch[0][1]["W"]["root"],
+                           "first_world": batch[0][1]["W"], "paths": node_paths(batch[0][1]),
                            "why": "every configured package exists and has Go files: the run must succeed"})
             continue
         try:
